@@ -67,13 +67,23 @@ var vHostileNames = []string{"../evil", "..", "../../evil2", "a/../../evil3", "s
 	"..\\evil7", "ok/../../../evil8", "dir/evil9", "~/evil10", strings.Repeat("L", 300), "../sibling/canary.txt", "../canary.txt"}
 
 var vHostileLists = [][]string{{"..", "evil"}, {"sub", "..", "..", "evil2"}, {"a/../../evil3"}, {"/abs", "evil4"}, {"", "evil5"}, {"x", ""}, {"x", "..", "..", "evil6"},
-	{".", "evil7"}, {"..", "sibling", "canary.txt"}, {"top", "../../evil8"}, {"..", "..", "evil9"}, {"..", "canary.txt"}, {"..\\evil10"}, {"top", "/abs/evil11"}, {"top", "..", "..", "sibling", "new"}}
+	{".", "evil7"}, {"..", "sibling", "canary.txt"}, {"top", "../../evil8"}, {"..", "..", "evil9"}, {"..", "canary.txt"}, {"..\\evil10"}, {"top", "/abs/evil11"}, {"top", "..", "..", "sibling", "new"},
+	// lists that stay inside when joined as sent, but whose first element is deeper than the one name the receiver puts in its place
+	{"a/b/c", "..", "..", "evil12"}, {"a/b", "..", "..", "canary.txt"}, {"x/y/z/w", "..", "..", "..", "sibling", "canary.txt"}, {"a/./b/c", "..", "..", "evil13"}}
 
 // vHostileList composes a path list from suspicious elements (in addition to the fixed lists).
 func vHostileList(tp *verifsim.Tape) []string {
 	elems := []string{"..", ".", "", "./..", ".//..", "../", "..//", "a/..", "/", "/abs", "..\\", "sub", "x/../..", "./.", "../.", "...", " ..", ".. ", "..\x00"}
 	n := 1 + tp.Draw("hl.n", 4)
 	var out []string
+	if tp.Bool("hl.deepfirst", 250) {
+		// a first element with separators inside: as deep as the climbs that follow, when joined as sent
+		out = append(out, []string{"a/b/c", "a/b", "x/y/z/w", "a//b/c", "a/./b"}[tp.Draw("hl.deep", 5)])
+		for k := 1 + tp.Draw("hl.climbs", 3); k > 0; k-- {
+			out = append(out, "..")
+		}
+		n = tp.Draw("hl.n2", 2)
+	}
 	for i := 0; i < n; i++ {
 		out = append(out, elems[tp.Draw("hl.elem", len(elems))])
 	}
